@@ -10,83 +10,7 @@ from oracle.langs import LANGS
 from mirsym.strings import to_symstr
 
 
-def flag_assignments(f):
-    """all assignments of the variant flags that can matter below 1000 (flags of higher groups stay False)"""
-    import re
-    names = [n for n in sorted(f) if not re.search(r'[123]$', n)]
-    for mask in range(1 << len(names)):
-        fa = {n: False for n in f}
-        fa.update({n: bool(mask >> i & 1) for i, n in enumerate(names)})
-        yield fa
-
-
-def spellings(L, n, digs, f, slots, side):
-    """all variant spellings of n as tuples of number words (conjunction removed, hyphenated words split)"""
-    out = set()
-    for fa in flag_assignments(f):
-        s = z3.Solver()
-        for i, d in enumerate(digs.D):
-            s.add(d == (n // 10 ** i) % 10)
-        for k, v in fa.items():
-            s.add(f[k] == v)
-        for c in side:
-            s.add(c)
-        if s.check() != z3.sat:
-            continue
-        words = concrete_phrase(slots, s.model())
-        flat = []
-        for w in words:
-            if w == L.conj:
-                continue
-            flat.extend(w.split('-') if L.code in ('en', 'fr') else [w])
-        flat = [w for w in flat if w != L.conj]
-        # the silent agreement mark of French 'vingts' is not a different word ('quatre-vingts dix-neuf' are the words of 99)
-        if L.code == 'fr':
-            flat = ['vingt' if w == 'vingts' else w for w in flat]
-        out.add(tuple(flat))
-    return out
-
-
-def fusion_table(code):
-    """R = {(a, b, c)}: some standard spelling of c consists of exactly the number words of a followed by those of b"""
-    L = LANGS[code]
-    src = open(os.path.join(VERIF, 'oracle', 'langs.py'), 'rb').read() + open(os.path.join(VERIF, 'oracle', 'en.py'), 'rb').read()
-    key = hashlib.sha256(src + open(__file__, 'rb').read()).hexdigest()[:16]
-    path = os.path.join(VERIF, '.cache', 'fusion-%s-%s.json' % (code, key))
-    if os.path.exists(path):
-        return [tuple(x) for x in json.load(open(path))]
-    digs = Digits(12)
-    f = L.flags()
-    slots = L.cardinal_slots(digs, f)
-    side = list(L.side_constraints(digs, f))
-    # only flags that influence numbers below 10000
-    small = {}
-    for n in range(0, 100):
-        small[n] = spellings(L, n, digs, f, slots, side)
-    R = set()
-    for c in range(1, 1000):
-        for sp in spellings(L, c, digs, f, slots, side):
-            for cut in range(1, len(sp)):
-                pre, suf = sp[:cut], sp[cut:]
-                for a in range(1, 100):
-                    if pre in small[a]:
-                        for b in range(1, 100):
-                            if suf in small[b]:
-                                R.add((a, b, c))
-    # compound languages write tens-units (and German/Dutch teens) as one word made of exactly the two number words
-    if code in ('de', 'nl'):
-        for t in range(2, 10):
-            for u in range(1, 10):
-                R.add((u, 10 * t, 10 * t + u))
-        for u in range(3, 10):
-            R.add((u, 10, 10 + u))
-    if code == 'it':
-        for t in range(2, 10):
-            for u in range(1, 10):
-                R.add((10 * t, u, 10 * t + u))
-    os.makedirs(os.path.dirname(path), exist_ok=True)
-    json.dump(sorted(R), open(path, 'w'))
-    return sorted(R)
+from oracle.fusion import fusion_table, spellings, flag_assignments
 
 
 def worker(ck: Check, job):
